@@ -76,14 +76,14 @@ def gen_slow(seed, k):
     P = rng.choice([250, 400]); K = rng.choice([None, 1, 2, 3]); G = rng.choice([0, 300, 300])
     if k == 0: P, K, G = 300, 2, 300
     kinds = ["fast", "long_ok", "hang_exit", "hang_default", "hang_ign", "hang_late", "hang_out"] if K else ["fast", "long_ok", "long_ok"]
-    n = rng.randrange(2, 5) if k else 5
+    n = rng.randrange(2, 5) if k else 7
     tests = []
     # an override gives one binary its own, different slow-timeout
     ovr = rng.random() < 0.4 and K is not None
     P2, K2, G2 = (rng.choice([200, 500]), rng.choice([1, 2]), rng.choice([0, 250])) if ovr else (P, K, G)
     for i in range(n):
         b, pkg = BINS[i % 3]
-        kind = rng.choice(kinds) if k else ["fast", "hang_ign", "long_ok", "hang_exit", "hang_out"][i % 5]
+        kind = rng.choice(kinds) if k else ["fast", "hang_ign", "long_ok", "hang_exit", "hang_out", "hang_out", "hang_out"][i % 7]
         p, kk, g = (P2, K2, G2) if (ovr and b == "t_three") else (P, K, G)
         name = f"{kind}_{i}"
         if kind == "fast": acts = ["work:40", "exit:0"]; dur = 40
@@ -95,7 +95,7 @@ def gen_slow(seed, k):
         elif kind == "hang_ign": acts = ["ignore:15", "child:20000", "hang"]; dur = None
         elif kind == "hang_out":
             # writes its last words when told to terminate: they must be captured although the attempt ends as a timeout
-            acts = [f"outn:out:{i}:3000:4096:0:bin", f"onsigw:15:0:{100 + i}:{rng.choice([10, 5000, 150000])}", "hang"]; dur = None
+            acts = [f"outn:out:{i}:3000:4096:0:bin", f"onsigw:15:0:{100 + i}:{rng.choice([10, 60000, 150000])}", "hang"]; dur = None
         else: acts = [f"onsig:15:7:{g // 2}", "hang"]; dur = None
         tests.append({"bin": b, "pkg": pkg, "name": name, "kind": kind, "dur": dur, "P": p, "K": kk, "G": g, "acts": acts})
         sc.test(b, name, acts)
